@@ -272,7 +272,7 @@ def exec (sub : SubRun) (g : G) (f : Frame) (ins : Instr) : StepR :=
           (match f2.pop with
            | .ok (obj, f3) =>
              (match itemSet g obj idx val with
-              | (g', .ok _) => .next g' f3
+              | (g', .ok _) => pushV g' f3 val
               | (g', r) => bad g' f3 r)
            | r => bad g f2 r)
         | r => bad g f1 r)
@@ -281,7 +281,7 @@ def exec (sub : SubRun) (g : G) (f : Frame) (ins : Instr) : StepR :=
     (match f.pop2 with
      | .ok (attrVal, obj, f') =>
        (match attrSet g obj name attrVal with
-        | (g', true) => .next g' f'
+        | (g', true) => pushV g' f' attrVal
         | (g', false) => err g' f' "不支持的类型：当前变量无法用.来设置属性")
      | r => bad g f r)
   | .attrGet name =>
@@ -320,7 +320,7 @@ def exec (sub : SubRun) (g : G) (f : Frame) (ins : Instr) : StepR :=
                 (match f2.pop with
                  | .ok (obj, f3) =>
                    (match setSlice g obj a b val with
-                    | (g', .ok _) => .next g' f3
+                    | (g', .ok _) => pushV g' f3 val
                     | (g', r) => bad g' f3 r)
                  | r => bad g f2 r)
               | r => bad g f1 r)
